@@ -130,6 +130,7 @@ size_t sim_conn_unread(int cid); /* bytes queued towards the daemon, not yet rea
 
 /* deterministic stub of cjet_get_random_bytes (salt generation) */
 void sim_seed_random(uint64_t seed);
+void sim_random_script(const uint8_t *bytes, size_t n); /* the next n bytes read from the random source are these */
 
 /* clock / timers */
 uint64_t sim_now(void);
